@@ -72,6 +72,7 @@ class Tensor:
                 self.array = np.array(args[0].array, **kwargs)  # type: ignore[call-overload]
                 self._covariant_indices = args[0]._covariant_indices
                 self._contravariant_indices = args[0]._contravariant_indices
+                self._validate_tensor()
                 return
             else:
                 self.array = np.array(args[0], **kwargs)  # type: ignore[call-overload]
@@ -440,9 +441,9 @@ class TensorCollection(Tensor, Generic[T], Sized, Iterable[T]):
 
         """
         kwargs.setdefault("copy", False)
-        if tensor.free_indices > 0:
+        try:
             return cls(tensor, **kwargs)
-        else:
+        except IncompatibleShapeError:
             return cls._element_class(tensor, **kwargs)  # type: ignore[return-value]
 
     @classmethod
